@@ -25,6 +25,15 @@ func (r *renderer) line(format string, a ...any) {
 	r.b.WriteByte('\n')
 }
 
+// ClosureAct: every fourth effect atom is rendered inside an ordinary, immediately called closure with control
+// flow of its own - a loop, a switch, continue inside the switch, break inside an if, return: none of it is
+// the generator's business (C13), the rewriter must leave it alone; the atom runs exactly once (i == 1)
+func ClosureAct(n int) bool { return n > 0 && n%4 == 0 }
+
+func ClosureActText(n int) string {
+	return fmt.Sprintf("func() { for i := 0; i < 3; i++ { switch { case i == 0: continue }; if i == 2 { break }; A(%d) }; return }()", n)
+}
+
 func usesArgs(uses []int) string {
 	s := ""
 	for _, u := range uses {
@@ -47,6 +56,9 @@ func (r *renderer) simple(s *Stmt) string {
 	}
 	switch s.K {
 	case Act:
+		if ClosureAct(s.N) {
+			return ClosureActText(s.N)
+		}
 		return fmt.Sprintf("A(%d)", s.N)
 	case PAct:
 		return fmt.Sprintf("P(%d)", s.N)
